@@ -208,7 +208,9 @@ func (b *assignmentBuilder) structFieldAndStructGettersAndFields(lhs bmodel.Node
 			// the field must still be reported.
 			nested = err != nil || 0 < len(nestStruct.Contents)
 		}
-		return true
+		// Keep looking at further candidates of the same name (they exist under :case:off)
+		// unless this one produced something.
+		return a != nil || err != nil || nested
 	}
 
 	if opts.Getter && opts.Rule == gmodel.MatchRuleName {
